@@ -224,6 +224,7 @@ From NV Require Import Scalar.Ops Model.Common Model.Basis Model.Knots Model.Kno
 Local Open Scope nat_scope.
 
 
+
 (* [G] helpers.find_span_linear; wf: the loop reads knot_vector[degree+1 .. num_ctrlpts-1] *)
 Theorem C03_gen_find_span_linear_R : forall (p : nat) (U : list R) (n : nat) (u : R),
   n <= length U ->
